@@ -830,6 +830,9 @@ def _serve_socket_threaded(
             with state_lock:
                 conn_count += 1
                 _cancel_timer_locked()
+                # An idle timer may have decided to shut down between accept()
+                # returning and this point; the worker is no longer idle.
+                shutdown_requested = False
             t = threading.Thread(
                 target=_handle,
                 args=(conn,),
